@@ -49,6 +49,22 @@ CHECKS = {
         "trusts the strict scanner (self-tested against the renderer on every C02 case); ambiguous dataless-start-tag mutants are not asserted",
         "property-based testing / fault injection: enumerated mutation operators over generated documents with a three-valued reference classifier as oracle",
     ),
+    "C05": (
+        "exploration",
+        "Hypothesis-generated header field values x layouts (separators, blanks after colons, leading blank lines, header/body gap, "
+        "XML quote style) x bodies over the declared charset (0x80-0xFF favoured); oracle is the inverse: parsed header fields and "
+        "the exact body text equal the generated ones; the separator x gap x charset x COMPRESSION x lead product is enumerated.",
+        "trusts Python's codecs; layouts the statement does not list are excluded (blank lines between fields, single-quoted OFX declaration)",
+        "property-based testing: Hypothesis generation + enumerated layout product; inverse (generate file from parts, parse, compare parts) oracle",
+    ),
+    "C12": (
+        "exploration",
+        "Exhaustive table over all versions 100-199 and supported 2xx x security x UID boundary pairs: generated header text is read by "
+        "an independent reader (kind and fields), parsed back (equal fields), and every single-field corruption, omission and adjacent "
+        "transposition must raise OFXHeaderError; make_header swept over 0..999 (int and str); Hypothesis-sampled UIDs and constructor arguments.",
+        "OFXHeaderError is the only accepted refusal; corruption of the XML declaration and omission of COMPRESSION are not asserted",
+        "property-based testing: exhaustive enumeration of the version/corruption table + Hypothesis sampling; round-trip and must-reject oracles",
+    ),
 }
 
 PENDING_REASON = "check not built yet in this round (planned in DESIGN.md §3); not claimed until its machinery exists and is quiet on the unchanged tree"
